@@ -197,6 +197,8 @@ def run_c04(ctx):
         path = os.path.join(ses.dir, "rt%d%s" % (i, ".zip" if is_zip else ""))
         ans0 = ses.answers(world, ref)
         d0 = desc_of(m)
+        import hashlib, json as _json
+        ses.ev("model %s answers %s" % (hashlib.blake2b(_json.dumps(d0, sort_keys=True, default=repr).encode(), digest_size=8).hexdigest(), ans0))
         err = ses.save(m, path, is_zip)
         ses.ev("save %s zip=%s -> %s" % (i, is_zip, type(err).__name__ if err else "ok"))
         if err is not None:
@@ -223,7 +225,7 @@ def run_c04(ctx):
             d2 = desc_of(m2)
             df = describe.diff(d0, d2)
             if df:
-                raise Violation("C04/round-trip-differs/" + c11path(df), {"diff": df, "zip": is_zip})
+                raise Violation("C04/round-trip-differs/" + c11path(df) + feature(d0, df), {"diff": df, "zip": is_zip})
             w2 = machine.World.__new__(machine.World)
             w2.m, w2.name, w2.handles = m2, m2.name, {}
             ans2 = ses.answers(w2, ref)
@@ -241,6 +243,29 @@ def run_c04(ctx):
         mach.world.name = m2.name
         m = m2
     ctx.nsteps = len(chain)
+
+
+def feature(desc, df):
+    """Narrow the signature of a round-trip difference by what kind of member it concerns."""
+    path = df.split(":")[0].strip(".").split(".")
+    node = desc
+    trail = []
+    try:
+        for seg in path:
+            if isinstance(node, dict) and seg in node:
+                trail.append(node)
+                node = node[seg]
+            else:
+                break
+    except Exception:
+        return ""
+    for n in reversed(trail):
+        if isinstance(n, dict) and "derived" in n and "src" in n:
+            return "/derived-cells" if n["derived"] else "/defined-cells"
+        if isinstance(n, dict) and "mode" in n and "value" in n:
+            v = n["value"]
+            return "/object-value" if isinstance(v, str) and v.startswith("<") else "/literal-value"
+    return ""
 
 
 def c11path(d):
